@@ -117,7 +117,7 @@ BAD_MEMBERS = {
 
 def gen_fault(ch):
     models, parts = gen_parts(ch, ch.pick([1, 2, 3, 4]))
-    kind = ch.pick(['member-type', 'member-sanity', 'member-syntax', 'duplicate-key', 'unknown-key', 'trailing-annotation', 'empty', 'member-sanity2'])
+    kind = ch.pick(['member-type', 'member-sanity', 'member-syntax', 'duplicate-key', 'unknown-key', 'trailing-annotation', 'empty', 'member-sanity2', 'broken-annotation-line'])
     pos = ch.int(0, len(parts))
     if kind == 'empty':
         return {'file': ch.pick(['', ' ', '\n\n', '\t \r\n']), 'expect': 'syntax', 'fault': kind, 'position': 0, 'count': 0}
@@ -142,6 +142,35 @@ def gen_fault(ch):
         bad = ' '.join(items) + ' globally: no a'
         expect = 'syntax'
         parts.insert(pos, bad)
+    elif kind == 'broken-annotation-line':
+        # one annotation line damaged by a fault that stays on its line (a quote or the colon missing, a quote doubled);
+        # string literals cannot span lines, so no later member can repair it - whatever quotes the neighbours contain
+        lines = ['# id: p_bad', '# title: "a title"', '# description: "some text"']
+        ch.sample(lines, min_size=1, max_size=3)
+        lines = ch.sample(lines, min_size=1, max_size=3)
+        cand = [i for i, l in enumerate(lines) if '"' in l] or [0]
+        i = ch.pick(cand)
+        l = lines[i]
+        f = ch.int(0, 3)
+        if f == 0 and '"' in l:
+            l = l[: l.rindex('"')] + l[l.rindex('"') + 1 :]  # closing quote missing
+        elif f == 1 and '"' in l:
+            l = l[: l.index('"')] + l[l.index('"') + 1 :]  # opening quote missing
+        elif f == 2:
+            l = l.replace(':', '', 1)
+        else:
+            l = l + '"' if '"' in l else l.replace(':', '::', 1)
+        lines[i] = l
+        bad = '\n'.join(lines + ['globally: no a'])
+        after = ch.pick(['# description: "after"\nglobally: no zz', '# title: "t2"\n# description: "d2"\nglobally: some zz', 'globally: no zz {s = "str"}',
+                         # a second damaged member (each of the two raises a syntax error on its own, so does the file)
+                         '# description: after"\nglobally: no zz', '# title: t2"\nglobally: some zz', '# id: q\n# description: "d2\nglobally: no zz', 'globally: no zz {s = str"}'])  # fmt: skip
+        expect = 'syntax'
+        parts.insert(pos, bad)
+        parts.insert(pos + 1, after)
+        if lib.outcome('property', bad)[0] != 'syntax':
+            raise core.HarnessError(f'the damaged member {bad!r} does not raise a syntax error on its own')
+        return {'file': '\n'.join(parts), 'expect': expect, 'fault': kind, 'position': pos, 'count': len(parts)}
     elif kind == 'unknown-key':
         bad = ch.pick(['# author: "me" globally: no a', '# Id: p globally: no a', '# id p globally: no a', '# title: untitled globally: no a'])
         expect = 'syntax'
